@@ -60,6 +60,7 @@ def run(chk):
     hunt2_rules(chk, repo)
     hunt3_rules(chk, repo)
     hunt4_rules(chk, repo)
+    round6_rules(chk, repo)
     # ---- C06.eofdone (shared with C02) ------------------------------------------------------------------
     eof_at_completion(chk, repo)
 
@@ -198,6 +199,15 @@ def run(chk):
         for i, (nm, needle) in enumerate(need):
             if needle is not None and needle not in el[i]:
                 bad.append(f"{nm}: `{el[i]}`")
+        # every element reads its setting unconditionally: a key element that is replaced by a constant for some requests (`self._ssl if is_ssl
+        # else True`) pools connections that differ in that setting (the TLS settings of a plain-http request are those of its https proxy)
+        for i, (nm, needle) in enumerate(need):
+            e = tup[0].elts[i]
+            full = ast.parse(el[i], mode="eval").body
+            if i != 5 and any(isinstance(x, ast.IfExp) or (isinstance(x, ast.BoolOp) and not (i == 0 and isinstance(x.op, ast.Or) and isinstance(x.values[-1], ast.Constant))) for x in ast.walk(full)):
+                bad.append(f"{nm}: `{el[i]}` (conditional)")
+            elif needle is not None and i in (1, 3, 6) and el[i].replace(" ", "") not in (needle.replace(" ", ""), "self." + needle.replace(" ", "")):
+                bad.append(f"{nm}: `{el[i]}` (not the plain setting `{needle}`)")
         if proxy_needed:
             if "self.proxy" not in el[4]:
                 bad.append(f"proxy: `{el[4]}`")
@@ -447,6 +457,46 @@ def hunt4_rules(chk, repo):
     from rules import C01
     C01.te10_rule(chk, repo.func("aiohttp/http_parser.py", "HttpResponseParser.parse_message"), "C06.te10", "response",
                   "the client pools a connection after an `HTTP/1.0 200` with `Connection: keep-alive` and `Transfer-Encoding: chunked`: an HTTP/1.0 relay that framed the message by close sends the rest of it as the answer to the next request on that connection (the request parser closes in the same situation)")
+
+
+def round6_rules(chk, repo):
+    """Rule written after seeding round 6 (F273, reported by a seed writer on the unchanged tree): input on an idle connection has no effect but
+    closing it.  The watch of C06.reacquire acts on the state the input leaves behind; input that leaves none (a stray CRLF the response parser
+    skips) kept the connection pooled and had already started the sock_read timer, which then failed the next request on that connection."""
+    rule = "C06.idle.input"
+    dr = repo.func(PROTO, "ResponseHandler.data_received")
+    g = cfg_of(dr.node)
+    arg = dr.node.args.args[1].arg if len(dr.node.args.args) > 1 else "data"
+    def effect(n):
+        if n.in_finally_copy is not None or not isinstance(getattr(n, "ast", None), ast.AST) or n.kind not in ("stmt", "test"):
+            return False
+        for c in K.node_calls(n):
+            f = norm.raw(c.func)
+            if f.endswith(".feed_data") or f in ("self._reschedule_timeout", "self._loop.call_later", "self._loop.call_at", "self.start_timeout"):
+                return True
+        return n.kind == "stmt" and isinstance(n.ast, (ast.Assign, ast.AugAssign)) and any(norm.raw(t) == "self._tail" for t in (n.ast.targets if isinstance(n.ast, ast.Assign) else [n.ast.target]))
+    effects = [n for n in g.nodes if effect(n)]
+    if len(effects) < 4:
+        chk.analysis_error(f"{rule}: only {len(effects)} effects of input (timer, parser feeds, tail store) found in ResponseHandler.data_received, 4 were confirmed by hand")
+        return
+    def conjuncts(t):
+        return [norm.raw(v) for v in t.values] if isinstance(t, ast.BoolOp) and isinstance(t.op, ast.And) else [norm.raw(t)]
+    gates = [n for n in g.nodes if n.kind == "test" and n.in_finally_copy is None and "self.idle" in conjuncts(n.ast) and set(conjuncts(n.ast)) <= {"self.idle", arg, f"len({arg})", f"len({arg}) > 0", f"{arg} != b''"}]
+    closing = lambda n: n.kind == "stmt" and (K.node_has(n, "self.close()") or K.node_has(n, "self.abort()") or K.node_has(n, "self.transport.close()") or K.node_has(n, "self.transport.abort()"))
+    good = []
+    for t in gates:
+        leak = g.find_path(None, lambda n: n in effects, lambda n: False, EXPLICIT, start_edges=[(t, "T")])
+        stays = g.find_path(None, lambda n: n.kind == "exit" or (n.kind == "stmt" and isinstance(n.ast, ast.Return)), closing, EXPLICIT, start_edges=[(t, "T")])
+        if leak is None and stays is None:
+            good.append(t)
+    pth = g.find_path([g.entry], lambda n: n in effects, lambda n: n in good, EXPLICIT)
+    if pth is None and good:
+        chk.ok(rule, good[0].ast, f"data_received(): non-empty input on an idle connection closes it before any of the {len(effects)} effects of input (read timer, parser feeds, tail buffer)")
+    else:
+        chk.violation(rule, dr, K.short(effects[0].ast), f"if {arg} and self.idle: self.close(); return - before the timer is re-armed and the parser is fed",
+                      "bytes that arrive on a pooled connection take effect: a stray CRLF after a response is skipped by the parser, so the idle watch sees a clean connection and keeps it pooled, but the bytes have started the sock_read timer - it fires on the idle connection and the next request that reuses it fails with SocketTimeoutError (and bytes outside an exchange did not retire the connection)",
+                      path=g.fmt_path(pth) if pth else None)
+    chk.expect_count(rule, len(effects), 4, "effects of input in ResponseHandler.data_received")
 
 
 def hunt2_rules(chk, repo):
